@@ -282,16 +282,17 @@ type src struct {
 }
 
 type hist struct {
-	c     *drv.Ctx
-	w     *drv.Worker
-	r     *rand.Rand
-	tag   string
-	h     *dvc.Hist
-	srcs  []*src
-	seq   int
-	trace []string
-	seen  int
-	warm  map[string]bool
+	c      *drv.Ctx
+	w      *drv.Worker
+	r      *rand.Rand
+	tag    string
+	h      *dvc.Hist
+	srcs   []*src
+	seq    int
+	trace  []string
+	seen   int
+	warm   map[string]bool
+	second bool // copy targets are mapped onto a second Badger store
 }
 
 func (x *hist) pullOps() {
@@ -608,6 +609,24 @@ func (x *hist) conflictedVersions(inst string) (map[string]bool, error) {
 	return out, nil
 }
 
+// noteStore counts copies that landed on the second store (only when this history expects them there).
+func (x *hist) noteStore(inst string) {
+	if !x.second {
+		return
+	}
+	var out struct {
+		Store string `json:"store"`
+	}
+	if err := x.w.API("c19.storeof", map[string]interface{}{"uuid": x.h.Root, "name": inst}, &out); err != nil {
+		return
+	}
+	if strings.HasSuffix(out.Store, "/db2") {
+		x.c.Count("copies_onto_second_store", 1)
+	} else {
+		x.viol("c19:harness:second-store-mapping-ignored", fmt.Sprintf("copy target %q was expected on the second store but is assigned to %s", inst, out.Store), nil)
+	}
+}
+
 func descendants(d *dvc.DAG, v string) map[string]bool {
 	out := map[string]bool{}
 	for _, u := range d.Order {
@@ -659,6 +678,7 @@ func (x *hist) checkSource(s *src, flattenAt []string) error {
 		x.viol("c19:full:"+s.Type+":copy-error", fmt.Sprintf("full copy of %s instance %q failed: %s", s.Type, s.Name, cerr), map[string]interface{}{"type": s.Type})
 	} else {
 		x.c.Count("full_copies_completed_"+s.Type, 1)
+		x.noteStore(dst)
 		got, err := x.snapAll(dst, s.Eps, vs)
 		if err != nil {
 			return err
@@ -699,6 +719,7 @@ func (x *hist) checkSource(s *src, flattenAt []string) error {
 			continue
 		}
 		x.c.Count("flattened_copies_compared_"+s.Type, 1)
+		x.noteStore(dst)
 		got, err := x.snapAll(dst, s.Eps, vs)
 		if err != nil {
 			return err
@@ -738,7 +759,10 @@ func (x *hist) checkSource(s *src, flattenAt []string) error {
 	return nil
 }
 
-func runHistory(c *drv.Ctx, w *drv.Worker, r *rand.Rand, tag string, nops int, types []string, maxFlatten int) error {
+// runHistory drives one history on *wp.  beforeCopies (optional) runs after the writes and before the copies; it may
+// replace *wp (restart with another configuration).
+func runHistory(c *drv.Ctx, wp **drv.Worker, r *rand.Rand, tag string, nops int, types []string, maxFlatten int, beforeCopies func(x *hist, flat []string) error) error {
+	w := *wp
 	cl := &dvc.Client{W: w}
 	h, err := dvc.NewHist(cl, r, tag)
 	if err != nil {
@@ -834,6 +858,11 @@ func runHistory(c *drv.Ctx, w *drv.Worker, r *rand.Rand, tag string, nops int, t
 		}
 		flat = f2
 	}
+	if beforeCopies != nil {
+		if err := beforeCopies(x, flat); err != nil {
+			return err
+		}
+	}
 	for _, s := range x.srcs {
 		if err := x.checkSource(s, flat); err != nil {
 			return err
@@ -845,6 +874,49 @@ func runHistory(c *drv.Ctx, w *drv.Worker, r *rand.Rand, tag string, nops int, t
 	c.Count("versions", len(h.D.Order))
 	if c.SeenCount("dag_shapes") <= 2 {
 		c.Sample(map[string]interface{}{"history": tag, "dag": h.D.Shape(), "flattened_at": len(flat), "trace": x.trace})
+	}
+	return nil
+}
+
+func secondStoreHistory(c *drv.Ctx, bin string, i int, seed int64, types []string) error {
+	name := fmt.Sprintf("sec%d", i)
+	dir, err := c.NewDataDir(name, drv.ConfOpts{SecondStore: true})
+	if err != nil {
+		return err
+	}
+	w, err := drv.StartWorker(bin, dir, drv.StartOpts{})
+	if err != nil {
+		return err
+	}
+	defer func() { w.Kill() }()
+	rr := rand.New(rand.NewSource(seed))
+	hook := func(x *hist, flat []string) error {
+		var b strings.Builder
+		for _, s := range x.srcs {
+			fmt.Fprintf(&b, "[backend.\"%s-full:%s\"]\nstore = \"second\"\n", s.Name, x.h.Root)
+			for _, v := range flat {
+				fmt.Fprintf(&b, "[backend.\"%s-flat-%s:%s\"]\nstore = \"second\"\n", s.Name, x.h.Short(v), v)
+			}
+		}
+		if err := x.w.Exit("clean"); err != nil {
+			return err
+		}
+		if _, err := drv.WriteConfig(dir, drv.ConfOpts{SecondStore: true, Extra: b.String()}); err != nil {
+			return err
+		}
+		nw, err := drv.StartWorker(bin, dir, drv.StartOpts{})
+		if err != nil {
+			return fmt.Errorf("restart with second-store mapping: %v; stderr: %s", err, drv.Trunc(nw.Stderr(), 800))
+		}
+		w = nw
+		x.w = nw
+		x.warm = map[string]bool{}
+		x.second = true
+		x.c.Count("second_store_histories", 1)
+		return nil
+	}
+	if err := runHistory(c, &w, rr, name, 60+rr.Intn(30), types, 4, hook); err != nil {
+		return fmt.Errorf("%v; stderr: %s", err, drv.Trunc(drv.FatalInStderr(w.Stderr()), 1500))
 	}
 	return nil
 }
@@ -896,16 +968,33 @@ func run(c *drv.Ctx) error {
 				errs <- err
 				return
 			}
-			defer w.Kill()
+			defer func() { w.Kill() }()
 			for i := range hch {
 				rr := rand.New(rand.NewSource(seeds[i]))
-				if err := runHistory(c, w, rr, fmt.Sprintf("h%d", i), 90+rr.Intn(50), types, maxFlat); err != nil {
+				if err := runHistory(c, &w, rr, fmt.Sprintf("h%d", i), 90+rr.Intn(50), types, maxFlat, nil); err != nil {
 					errs <- fmt.Errorf("worker %d history %d: %v; stderr: %s", wi, i, err, drv.Trunc(drv.FatalInStderr(w.Stderr()), 1500))
 					return
 				}
 			}
 		}(wi)
 	}
+	// copies onto another store: the targets are mapped to [store.second] by "<name>:<uuid>" backend entries, which
+	// needs a restart with the new configuration once the uuids exist
+	nsec := c.N(2, 24)
+	secSeeds := make([]int64, nsec)
+	for i := range secSeeds {
+		secSeeds[i] = c.Rand.Int63()
+	}
+	wg.Add(1)
+	go func() {
+		defer wg.Done()
+		for i := 0; i < nsec; i++ {
+			if err := secondStoreHistory(c, bin, i, secSeeds[i], types); err != nil {
+				errs <- fmt.Errorf("second-store history %d: %v", i, err)
+				return
+			}
+		}
+	}()
 	wg.Wait()
 	close(errs)
 	var ns []string
